@@ -135,8 +135,8 @@ class _P:
                     self.i += 1
             self.eat("}")
             return d
-        if c.isdigit():
-            m = re.compile(r"[0-9]+").match(self.s, self.i)
+        if c.isdigit() or (c == "-" and self.s[self.i + 1:self.i + 2].isdigit()):
+            m = re.compile(r"-?[0-9]+").match(self.s, self.i)
             self.i = m.end()
             return int(m.group(0))
         w = self.word()
@@ -173,13 +173,57 @@ STRUCTURED = {
 _LIM = {"usize": 2**64, "u64": 2**64, "u32": 2**32, "u16": 2**16, "u8": 256}
 
 
+_RANGE = {**{f"u{b}": (0, 2**b - 1) for b in (8, 16, 32, 64, 128)}, **{f"i{b}": (-2**(b - 1), 2**(b - 1) - 1) for b in (8, 16, 32, 64, 128)},
+          "usize": (0, 2**64 - 1), "isize": (-2**63, 2**63 - 1)}
+_ORD = {"Ordering.lt": "Less", "Ordering.eq": "Equal", "Ordering.gt": "Greater"}
+
+
+def _char_lit(v):
+    return None if not isinstance(v, int) or isinstance(v, bool) or v >= 0x110000 or 0xD800 <= v <= 0xDFFF or v < 0 else f"'\\u{{{v:x}}}'"
+
+
 def rust_value(ty, v, nested=False):
-    """(Rust type, Rust expression) of the parsed Lean value `v` at type term `ty`; None outside the Rust type"""
+    """(Rust type, Rust expression) of the parsed Lean value `v` at type term `ty`; None outside the Rust type.
+    Every expression is a constant expression wherever a reference to it is taken (literals only), so that
+    `&[…]` / `Some(&[…])` are promoted to 'static and no temporary is dropped while borrowed."""
     if isinstance(ty, str):
-        if not isinstance(v, int) or isinstance(v, bool) or v >= _LIM[ty]:
+        if ty == "bool":
+            return ("bool", "true" if v else "false") if isinstance(v, bool) else None
+        if ty == "char":
+            c = _char_lit(v)
+            return c and ("char", c)
+        if ty == "str":       # the bytes of a `&str`: a string literal
+            if not isinstance(v, list) or not all(isinstance(b, int) and 0 <= b < 256 for b in v) or not _valid_utf8(v):
+                return None
+            return "&str", '"' + "".join(f"\\u{{{ord(ch):x}}}" for ch in bytes(v).decode("utf-8")) + '"'
+        if ty == "Ordering":
+            if isinstance(v, tuple) and len(v) == 2 and v[0] == "ctor" and v[1] in _ORD:
+                return "core::cmp::Ordering", "core::cmp::Ordering::" + _ORD[v[1]]
             return None
-        return ty, f"{v}{ty}"
+        if ty in ("PhantomData", "PhantomPinned"):
+            return ("core::marker::PhantomData<u8>", "core::marker::PhantomData::<u8>") if ty == "PhantomData" else \
+                   ("core::marker::PhantomPinned", "core::marker::PhantomPinned")
+        lo, hi = _RANGE[ty] if ty in _RANGE else (0, _LIM[ty] - 1)
+        if not isinstance(v, int) or isinstance(v, bool) or not lo <= v <= hi:
+            return None
+        return ty, f"{v}{ty}" if v >= 0 else f"({v}{ty})"
     k = ty[0]
+    if k == "nz":          # NonZero*: read as its integer value by the translator; 0 is not a value of the type
+        r = rust_value(ty[1], v)
+        if r is None or v == 0:
+            return None
+        name = "core::num::NonZero" + ty[1][0].upper() + ty[1][1:]
+        return name, f"{name}::new({r[1]}).unwrap()"
+    if k == "range":       # core::ops::Range<T>, taken by reference
+        if not isinstance(v, tuple) or len(v) != 2:
+            return None
+        a, b = rust_value(ty[1], v[0]), rust_value(ty[1], v[1])
+        return a and b and (f"&core::ops::Range<{ty[1]}>", f"&({a[1]}..{b[1]})")
+    if k == "rangeinc":    # core::ops::RangeInclusive<T>: only the not-exhausted state can be written as `a..=b`
+        if not isinstance(v, tuple) or len(v) != 3 or v[2] is not False:
+            return None
+        a, b = rust_value(ty[1], v[0]), rust_value(ty[1], v[1])
+        return a and b and (f"&core::ops::RangeInclusive<{ty[1]}>", f"&({a[1]}..={b[1]})")
     if k == "opt":
         if v == ("none",):
             inner = rust_type(ty[1])
@@ -219,7 +263,9 @@ def rust_value(ty, v, nested=False):
 
 def rust_type(ty):
     if isinstance(ty, str):
-        return ty
+        return {"str": "&str", "Ordering": "core::cmp::Ordering"}.get(ty, ty)
+    if ty[0] == "nz":
+        return "core::num::NonZero" + ty[1][0].upper() + ty[1][1:]
     k = ty[0]
     if k == "opt":
         return f"Option<{rust_type(ty[1])}>"
@@ -265,6 +311,12 @@ def _array_len(text):
 
 def rust_binding(kind, i, text):
     """Rust `let a<i> = …;` for a Lean repr, or None when the value is outside the public API's domain"""
+    if isinstance(kind, tuple) and kind[0] == "typed":
+        try:
+            r = rust_value(kind[1], parse_repr(text))
+        except ValueError:
+            return None
+        return r and f"let a{i}: {r[0]} = {r[1]};"
     if kind in STRUCTURED:
         try:
             r = rust_value(STRUCTURED[kind], parse_repr(text))
@@ -308,13 +360,67 @@ def rust_binding(kind, i, text):
     return None
 
 
+# ---------------------------------------------------------------------------------------------
+# comparison functions (groups Cmp2 … Cmp7, C16): the replay entry is built from the regenerated signature —
+# `<path>(a0, a1)` against `a0 == a1` / `a0.cmp(&a1)`
+
+CMP_GROUPS = {"Cmp", "Cmp2", "Cmp3", "Cmp4", "Cmp5", "Cmp6", "Cmp7"}
+
+
+def sig_type_term(s, fname=""):
+    """type term of a parameter type as rs2lean prints it in signatures.json; None when it has no Rust literal form"""
+    s = s.strip()
+    if s == "()":
+        return "PhantomData" if "phantomdata" in fname else "PhantomPinned" if "phantompinned" in fname else None
+    if s in _RANGE or s in ("bool", "char", "str", "Ordering"):
+        return s
+    m = re.fullmatch(r"NonZero<(\w+)>", s)
+    if m:
+        return ("nz", m.group(1)) if m.group(1) in _RANGE else None
+    if s.startswith("Option<") and s.endswith(">"):
+        t = sig_type_term(s[7:-1])
+        return t and ("opt", t)
+    if s.startswith("[") and s.endswith("]"):
+        t = sig_type_term(s[1:-1])
+        return t and ("slice", t)
+    m = re.fullmatch(r"\((\w+),(\w+),\)", s)
+    if m and m.group(1) == m.group(2) and (m.group(1) in _RANGE or m.group(1) == "char"):
+        return ("range", m.group(1))
+    m = re.fullmatch(r"\((\w+),(\w+),bool,\)", s)
+    if m and m.group(1) == m.group(2) and (m.group(1) in _RANGE or m.group(1) == "char"):
+        return ("rangeinc", m.group(1))
+    return None
+
+
+def cmp_auto_entries():
+    """{lean name: (kinds, konst expression, std expression)} for the public `eq_*` / `cmp_*` functions"""
+    try:
+        sigs = json.load(open(os.path.join(core.ROOT, "lean", "KonstVerif", "Extracted", "Gen", "signatures.json")))
+    except Exception:
+        return {}
+    out = {}
+    for x in sigs:
+        if x.get("kind") != "fn" or x.get("group") not in CMP_GROUPS or len(x.get("params", [])) != 2:
+            continue
+        name = x["lean"]
+        if not re.fullmatch(r"(eq|cmp)_[a-z0-9_]+", name) or name.endswith("_inner") or "::cmp_inner" in x["rust"]:
+            continue
+        terms = [sig_type_term(p["rust"], name) for p in x["params"]]
+        if any(t is None for t in terms):
+            continue
+        std = "a0 == a1" if name.startswith("eq_") else "a0.cmp(&a1)"
+        out[name] = ([("typed", t) for t in terms], f"{x['rust']}(a0, a1)", std)
+    return out
+
+
 def replay_on_implementation(cex, workdir):
     """-> list of dicts: the counterexamples replayed on the real code with konst and std results"""
     from vlib.progs import common
     m = _load_map()
     blocks, kept = [], []
+    auto = cmp_auto_entries()
     for c in cex:
-        ent = m.REPLAY.get(c["fn"])
+        ent = m.REPLAY.get(c["fn"]) or auto.get(c["fn"])
         if not ent:
             continue
         kinds, konst_e, std_e = ent[0], ent[1], ent[2]
